@@ -22,9 +22,8 @@ namespace rkcommon {
           "access iterators!");
 
       const size_t count = std::distance(begin, end);
-      auto *v            = &(*begin);
 
-      parallel_for(count, [&](size_t i) { f(v[i]); });
+      parallel_for(count, [&](size_t i) { f(begin[i]); });
     }
 
     template <typename CONTAINER_T, typename TASK_T>
